@@ -591,7 +591,7 @@ type docSpec struct {
 
 func docSpecs(ctx *core.Ctx) []docSpec {
 	s := ctx.Seed * 1000
-	eol := []shared.BodyKind{shared.BodyEOL, shared.BodyPlain, shared.BodyEOLEndstream, shared.BodyEndobj, shared.BodyEmpty}
+	eol := []shared.BodyKind{shared.BodyEOL, shared.BodyCR, shared.BodyPlain, shared.BodyEOLEndstream, shared.BodyEndobj, shared.BodyEmpty}
 	specs := []docSpec{
 		{s + 1, shared.DocOptions{Version: pdf.V1_4, Seekable: true, Objects: 9, MinStreams: 2, Bodies: eol, Info: true}, "table-1.4"},
 		{s + 2, shared.DocOptions{Version: pdf.V1_7, XRefStream: true, ObjStm: true, Seekable: true, Objects: 10, Bodies: eol, Filters: shared.AllFilters, Info: true}, "xrefstream-objstm-filters"},
